@@ -10,6 +10,7 @@ kz^2 < pi_last).
 
 This file is also the bounds-check worker:  python c08.py --worker cases.json   (one JSON result line per case)
 """
+from vcommon import pure
 import os
 
 os.environ.setdefault('NUMBA_NUM_THREADS', '16')   # nthread=16 must be accepted by numba.set_num_threads
@@ -567,12 +568,12 @@ def run_kernel(ps, c, how):
     nth = 1 if how == 'py' else c['nthread']
     try:
         if c['kind'] == 'kmu':
-            fn = ps.bin_kmu.py_func if how == 'py' else ps.bin_kmu
+            fn = pure(ps.bin_kmu) if how == 'py' else ps.bin_kmu
             pol = np.array(c['poles'], dtype=np.int64) if c['poles'] else np.empty(0, 'i8')
             r = fn(n, L, ke, np.array(c['muedges'], dtype=np.float64), half, pol, dtype=dt, fourier=c.get('fourier', True), nthread=nth)
             return dict(mean=r[0], counts=r[1], poles=r[2], cpoles=r[3], kavg=r[4])
         if c['kind'] == 'kppi':
-            fn = ps.bin_kppi.py_func if how == 'py' else ps.bin_kppi
+            fn = pure(ps.bin_kppi) if how == 'py' else ps.bin_kppi
             r = fn(n, L, ke, c['pimax'], c['npi'], half, dtype=dt, fourier=c.get('fourier', True), nthread=nth)
             return dict(mean=r[0], counts=r[1])
         # calc_pk_from_deltak
@@ -1104,9 +1105,9 @@ def sibling_observations(ctx, ps):
                 ex += t
             return {'get_smoothing': np.exp(-q * dk ** 2 * R ** 2 / 2.0), 'get_delta_mu2': delta * mu2,
                     'expand_poles_to_3d': ex}
-        real = {'get_smoothing': ps.get_smoothing.py_func(n, L, R, dtype=np.float64),
-                'get_delta_mu2': ps.get_delta_mu2.py_func(delta, n, np.complex128, np.float64),
-                'expand_poles_to_3d': ps.expand_poles_to_3d.py_func(k_ell, P_ell, n, L, poles, dtype=np.float64)}
+        real = {'get_smoothing': pure(ps.get_smoothing)(n, L, R, dtype=np.float64),
+                'get_delta_mu2': pure(ps.get_delta_mu2)(delta, n, np.complex128, np.float64),
+                'expand_poles_to_3d': pure(ps.expand_poles_to_3d)(k_ell, P_ell, n, L, poles, dtype=np.float64)}
         rc, rf = refs(fo), refs(ff)
         for name in real:
             as_coded = bool(np.allclose(real[name], rc[name], rtol=2e-5, atol=1e-7))
